@@ -487,6 +487,7 @@ package proxy
 //@   callpre DeliverMessagesToShardOwner.2: @to_owner: $0 == targetShardID && targetShardID in tasksByTargetShard &&
 //@        msgsOf($1.Resp).ReplicationTasks == tasksByTargetShard[targetShardID] &&
 //@        (forall j int :: { tasksByTargetShard[targetShardID][j] } 0 <= j && j < len(tasksByTargetShard[targetShardID]) ==> ownedBy(r, tasksByTargetShard[targetShardID][j], targetShardID))
+//@   writepre lastWatermark: @only_from_watermark_only_batch: len(attr.Messages.ReplicationTasks) == 0 && $value.ExclusiveHighWatermark == attr.Messages.ExclusiveHighWatermark
 //@   callpre DeliverMessagesToShardOwner.2: @registered_before_handoff: targetShardID in r.ackByTarget
 //@   callpre DeliverMessagesToShardOwner.2: @watermark: msgsOf($1.Resp).ExclusiveHighWatermark == tasks[len(tasks) - 1].RawTaskInfo.TaskId + 1 &&
 //@        msgsOf($1.Resp).Priority == attr.Messages.Priority && $1.SourceShard == r.sourceShardID
